@@ -19,6 +19,8 @@ package main
 //       take submitSinkTask's overflow branch; Stop is called while these invocations are in progress and they are released
 //       one by one in the order in which they began. Same events and monitor as R.
 //   C18 L # <event trace>   two overlapping Stop calls (documents F18c).
+//   C18 W ... / C18 B ...   calls in flight while sinks are registered and Stop is called / user code blocked or
+//       re-entering on a pipeline goroutine while Stop or an expansion arrives: see c18b.go.
 
 import (
 	"bufio"
@@ -709,6 +711,14 @@ func runC18(tier string, seed uint64, o *Out) error {
 	if tier == "race" { // internal tier: this binary was built with -race by the thorough tier (see c18RaceRun)
 		nScript, nRand = 2, 6
 	}
+	// (0) families B (blocked / re-entrant user code while Stop or an expansion arrives) and W (calls in flight while
+	// sinks are registered and Stop is called), see c18b.go
+	if n, err := runC18Families(tier, rng, o); err != nil {
+		return err
+	} else if stuck += n; stuck >= c18MaxStuck {
+		o.Count("aborted_after_stuck_cases")
+		return nil
+	}
 	// (1) scripts, several at a time (their goroutine accounting is switched off; the sequential cases below do it)
 	var scripts []c18Script
 	for _, k := range scriptKinds {
@@ -750,7 +760,7 @@ func runC18(tier string, seed uint64, o *Out) error {
 		o.Line("%s", lines[i])
 		o.Count("script/" + scripts[i].kind + "/" + scripts[i].strat)
 	}
-	stuck = int(stuckPar)
+	stuck += int(stuckPar)
 	if stuck >= c18MaxStuck {
 		o.Count("aborted_after_stuck_cases")
 		return nil
